@@ -188,6 +188,12 @@ RETURN_OPCODES = {
 RESUME_OPCODE = opcode.opmap.get("RESUME")  # Python 3.11+
 
 
+def _is_throw(frame: FrameType) -> bool:
+    """Is this 'call' event an exception being thrown into a generator suspended at a yield?"""
+    lasti = frame.f_lasti
+    return lasti >= 0 and frame.f_code.co_code[lasti] == YIELD_VALUE_OPCODE
+
+
 def _is_resumption(frame: FrameType) -> bool:
     """Does this 'call' event resume a suspended generator or coroutine (as opposed to a new call)?"""
     lasti = frame.f_lasti
@@ -197,8 +203,7 @@ def _is_resumption(frame: FrameType) -> bool:
     if code[lasti] == RESUME_OPCODE:
         # the oparg of RESUME is 0 only at the start of a function
         return (code[lasti + 1] & 3) != 0
-    # an exception is being thrown into a generator suspended at a yield
-    return bool(code[lasti] == YIELD_VALUE_OPCODE)
+    return _is_throw(frame)
 
 
 # A CodeFilter is a predicate that decides whether or not a the call for the
@@ -233,6 +238,7 @@ class CallTracer:
     ) -> None:
         self.logger = logger
         self.traces: Dict[FrameType, CallTrace] = {}
+        self.thrown_into: Dict[FrameType, int] = {}
         self.sample_rate = sample_rate
         self.cache: Dict[CodeType, Optional[Callable[..., Any]]] = {}
         self.should_trace = code_filter
@@ -245,7 +251,14 @@ class CallTracer:
         return self.cache[code]
 
     def handle_call(self, frame: FrameType) -> None:
-        if frame not in self.traces and _is_resumption(frame):
+        # I can't figure out a way to access the value sent to a generator via
+        # send() from a stack frame.
+        if frame in self.traces:
+            # resuming a generator; we've already seen this frame
+            if _is_throw(frame):
+                self.thrown_into[frame] = frame.f_lasti
+            return
+        if _is_resumption(frame):
             # a generator whose first call was not sampled; never start a trace in the middle of its life
             return
         if self.sample_rate and random.randrange(self.sample_rate) != 0:
@@ -254,11 +267,6 @@ class CallTracer:
         if func is None:
             return
         code = frame.f_code
-        # I can't figure out a way to access the value sent to a generator via
-        # send() from a stack frame.
-        if frame in self.traces:
-            # resuming a generator; we've already seen this frame
-            return
         arg_names = code.co_varnames[: code.co_argcount + code.co_kwonlyargcount]
         arg_types = {}
         for name in arg_names:
@@ -280,7 +288,10 @@ class CallTracer:
         trace = self.traces.get(frame)
         if trace is None:
             return
-        elif last_opcode == YIELD_VALUE_OPCODE:
+        # An exception thrown into a generator suspended at a yield (close(), throw(), garbage
+        # collection) and not handled there looks like `yield None`, but ends the call.
+        thrown = self.thrown_into.pop(frame, None) == frame.f_lasti
+        if last_opcode == YIELD_VALUE_OPCODE and not (thrown and arg is None):
             # A coroutine suspending on an `await` also executes YIELD_VALUE (3.11+); that is not a yield
             if not frame.f_code.co_flags & inspect.CO_COROUTINE:
                 trace.add_yield_type(typ)
